@@ -29,6 +29,10 @@ DECLINED = [
 ASSUMPTIONS = ["struct.pack/unpack with equal format strings are mutually inverse on the format's domain"]
 
 
+def shape_params(fn):
+    return [a.arg for a in fn.args.args if a.arg != "self"]
+
+
 def run(repo: Repo, rep, tier: str):
     spec = docs.load_spec(repo)
     sc = docs.spec_chunks(spec)
@@ -115,6 +119,12 @@ def structural_handlers(repo: Repo, rep, P: str, secs):
         rt = sorted({m.table for m in muts if m.kind in ("extend", "append")})
         if wsrc == [table] and rt == [table]:
             rep.ok(f"{P}.R2", f"{r.rel}:{r.cls}.process_{cid}", f"{cid}: {table}", "written from and extended into the same table")
+        elif not rt and any(isinstance(c_, ast.Call) and any(norm(a_).endswith(f".{table}") or norm(a_) == (shape_params(r.node) or ["data"])[0]
+                                                             for a_ in c_.args) and not norm(c_.func).endswith(("unpack", ".extend", ".append", "len"))
+                            for c_ in ast.walk(r.node)):
+            # the table / the payload is handed to a function that was not read through
+            rep.inconclusive(f"{P}.R2", f"{r.rel}:{r.cls}.process_{cid}", f"{cid}: written from {wsrc}; the reader hands the table to a call that is not read through",
+                             f"where {cid} is stored is not recognised", r.where)
         else:
             rep.violation(f"{P}.R2", f"{r.rel}:{r.cls}.process_{cid}", f"{cid}: written from {wsrc}, read into {rt}",
                           f"{cid} must carry Module.{table} on both sides", r.where)
